@@ -395,6 +395,9 @@ def check_corruptions(ir, rng, out):
                     if len(lst) == 0:
                         continue
                     lst.pop()
+                    if len(getattr(b, top)) != len(lst):
+                        # (a flipped interface hands out a fresh list: remove the whole member instead)
+                        delattr(b, top)
                 else:
                     delattr(b, top)
             elif kind == "width":
